@@ -3,19 +3,19 @@ CONSTANTS
   Nodes = {1, 2, 3}
   Locals = {1}
   Levels = {"machine", "reactor"}
-  MaxOp = 2
+  MaxOp = 3
   BatchIds = {1, 2}
   MaxOff = 3
   Epochs = {1}
   LEpochs = {1, 2}
   Leaders = {1, 2}
   ReplicaSets = {{1, 2, 3}}
-  ISRs = {{1}, {1, 2, 3}}
+  ISRs = {{1}, {1, 2}, {1, 2, 3}}
   MinISRs = {1, 2}
-  Statuses = {"active"}
-  Modes = {"quorum", "local"}
+  Statuses = {"active", "deleted"}
+  Modes = {"quorum", "local", "default"}
   Counts = {1, 2}
-  Gens = {1}
+  Gens = {1, 2}
 VIEW View
 INVARIANTS TypeOK C06_Order
 PROPERTIES C06_HWMonotone C06_QuorumReply C06_ReplyOnce C06_StaleFence C06_StaleMeta C06_AckGuard
